@@ -401,8 +401,12 @@ def judge(driver, tier, seed, merged, wall):
         'wall_s': round(wall, 2),
         'violations': len(new),
     }
-    os.makedirs(os.path.join(ROOT, 'evidence'), exist_ok=True)
-    with open(os.path.join(ROOT, 'evidence', prop + '.json'), 'w') as fh:
+    # evidence/ only ever describes runs against /repo itself; runs aimed at a scratch copy
+    # (VERIF_REPO=..., used to validate the monitors on mutants) write elsewhere.
+    evdir = os.path.join(ROOT, 'evidence') if os.path.realpath(REPO) == '/repo' else \
+        os.path.join(ROOT, '.work', 'evidence_scratch')
+    os.makedirs(evdir, exist_ok=True)
+    with open(os.path.join(evdir, prop + '.json'), 'w') as fh:
         json.dump(ev, fh, indent=1, default=repr, sort_keys=False)
         fh.write('\n')
     for ln in lines:
